@@ -11,7 +11,7 @@ CONSTANTS
   Budget = 0
   LateKinds = {"write", "promote", "release"}
   EarlyStop = FALSE
-  MaxDepth = 14
+  MaxDepth = 13
 VIEW View
 SYMMETRY Sym
 CONSTRAINT Bounded
